@@ -2,11 +2,15 @@ package c10
 
 import (
 	"fmt"
+	"github.com/go-kid/ioc/app"
 	"github.com/go-kid/ioc/container"
+	"math"
+	"reflect"
 	"runtime"
 	"sort"
 	"strings"
 	"testing"
+	"verif/harness/zoo"
 
 	"pgregory.net/rapid"
 	"verif/harness/graph"
@@ -233,7 +237,7 @@ func TestPopulations(t *testing.T) {
 // PlainPP: a user post-processor that is NOT instantiation-aware (only before / after initialization).
 type PlainPP struct{}
 
-func (*PlainPP) Naming() string { return "plain-pp" }
+func (*PlainPP) Naming() string                                               { return "plain-pp" }
 func (*PlainPP) PostProcessBeforeInitialization(c any, n string) (any, error) { return c, nil }
 func (*PlainPP) PostProcessAfterInitialization(c any, n string) (any, error)  { return c, nil }
 
@@ -369,4 +373,123 @@ func keysOf(m map[string]bool) []string {
 	}
 	sort.Strings(k)
 	return k
+}
+
+// ---- two distinct components that claim one name and are deeply equal at registration time ---------
+
+func TestDuplicatePair(t *testing.T) {
+	kit.Rec.Rule(rule)
+	rapid.Check(t, func(t *rapid.T) {
+		kind := rapid.SampledFrom([]int{0, 2, 3}).Draw(t, "kind")
+		alias := rapid.SampledFrom([]string{"dup", ""}).Draw(t, "alias")
+		outcomes := map[string]int{}
+		var first string
+		for i := 0; i < reps(); i++ {
+			shared := &zoo.Beh{ID: 0, Alias: alias, Mask: "g1"} // both instances wrap the same data: deeply equal
+			w1 := zoo.ProviderKinds[kind].New(shared)
+			w2 := zoo.ProviderKinds[kind].New(shared)
+			cons := reflect.New(pop.ConsumerType(0, pop.ConsSpec{Fields: []pop.FieldSpec{{Type: "[]IAll", Tag: `wire:",required=false"`}}}))
+			comps := rapid.Permutation([]any{w1, w2, cons.Interface(), zoo.ProviderKinds[1].New(&zoo.Beh{ID: 5})}).Draw(t, "order")
+			out := kit.RunApp(app.SetComponents(comps...))
+			o := "started"
+			switch {
+			case out.Panic != nil:
+				o = "rejected(panic)"
+			case out.Err != nil:
+				o = "rejected(error)"
+			default:
+				all := cons.Elem().Field(1)
+				for k := 0; k < all.Len(); k++ {
+					switch all.Index(k).Interface() {
+					case w1:
+						o += "+first"
+					case w2:
+						o += "+second"
+					}
+				}
+			}
+			outcomes[o]++
+			if first == "" {
+				first = o
+			}
+		}
+		if len(outcomes) > 1 {
+			t.Fatalf("C10: two distinct components claim one name; depending only on the registration order the start-up outcome / the component that is wired differs: %v", outcomes)
+		}
+		kit.Rec.Case(fmt.Sprintf("duplicate-pair kind=%d alias=%q -> %s", kind, alias, first), true, "duplicate-pair")
+	})
+}
+
+// ---- runners whose Orders are far apart: which one runs first must not depend on registration order ----
+
+type orderedRunner struct {
+	name  string
+	order int
+	prio  bool
+	state *[]string
+	needs string
+}
+
+func (r *orderedRunner) Naming() string { return r.name }
+func (r *orderedRunner) Order() int     { return r.order }
+func (r *orderedRunner) Run() error {
+	if r.needs != "" {
+		ok := false
+		for _, s := range *r.state {
+			if s == r.needs {
+				ok = true
+			}
+		}
+		if !ok {
+			return fmt.Errorf("%s started before %s", r.name, r.needs)
+		}
+	}
+	*r.state = append(*r.state, r.name)
+	return nil
+}
+
+type prioRunner struct{ orderedRunner }
+
+func (*prioRunner) Priority() {}
+
+func TestRunnerOrderOutcome(t *testing.T) {
+	kit.Rec.Rule(rule)
+	rapid.Check(t, func(t *rapid.T) {
+		lo := rapid.SampledFrom([]int{math.MinInt, math.MinInt + 1, -1 << 62, -5}).Draw(t, "lo")
+		hi := rapid.SampledFrom([]int{0, 1, 7, math.MaxInt, 1 << 62}).Draw(t, "hi")
+		prio := rapid.Bool().Draw(t, "prio")
+		extra := rapid.IntRange(0, 3).Draw(t, "extra")
+		started, failed := 0, 0
+		for i := 0; i < reps(); i++ {
+			var state []string
+			mk := func(name string, order int, needs string) any {
+				r := orderedRunner{name: name, order: order, state: &state, needs: needs}
+				if prio {
+					return &prioRunner{r}
+				}
+				return &r
+			}
+			comps := []any{mk("migration", lo, ""), mk("server", hi, "migration")}
+			for k := 0; k < extra; k++ {
+				comps = append(comps, mk(fmt.Sprintf("extra-%d", k), rapid.SampledFrom([]int{-3, 0, 2, 9}).Draw(t, "eo"), ""))
+			}
+			comps = rapid.Permutation(comps).Draw(t, "order")
+			out := kit.RunApp(app.SetComponents(comps...))
+			if out.Panic != nil {
+				t.Fatalf("C10: panic %v", out.Panic)
+			}
+			if out.Err == nil {
+				started++
+			} else {
+				failed++
+			}
+		}
+		if started != 0 && failed != 0 {
+			t.Fatalf("C10: runner 'migration' (Order %d) must run before 'server' (Order %d); with the same components start-up succeeded %d times and failed %d times depending on the registration order", lo, hi, started, failed)
+		}
+		if failed != 0 {
+			t.Fatalf("C10: runner 'migration' (Order %d) was not run before 'server' (Order %d) in any order", lo, hi)
+		}
+		kit.Rec.Case(fmt.Sprintf("runner-order lo=%d hi=%d prio=%v extra=%d", lo, hi, prio, extra), true, "runner-order-outcome")
+	})
 }
